@@ -18,6 +18,7 @@ import (
 	"fmt"
 	"os"
 	"regexp"
+	"runtime/pprof"
 	"sort"
 	"sync"
 	"testing"
@@ -258,6 +259,10 @@ func TestVerifC25(t *testing.T) {
 		t.Skip("C25_KFAKE_SUMMARY not set")
 	}
 	balenum.TuneGC(1 << 30)
+	if pp := os.Getenv("C25_PPROF"); pp != "" {
+		f, _ := os.Create(pp)
+		pprof.StartCPUProfile(f)
+	}
 	thorough := os.Getenv("VERIF_TIER") == "thorough"
 	blocks, bound := c25Blocks(thorough)
 	workers := 16
@@ -360,6 +365,7 @@ func TestVerifC25(t *testing.T) {
 		fmt.Println("cannot write summary:", err)
 		os.Exit(2)
 	}
+	pprof.StopCPUProfile()
 	fmt.Printf("C25 kfake harness: evaluations=%d distinct=%d violation_classes=%d\n", evals, len(dl), len(findings))
 	os.Exit(0)
 }
